@@ -4,6 +4,7 @@ import (
 	"fmt"
 	"reflect"
 	"sort"
+	"strings"
 	"testing"
 
 	"github.com/goghcrow/yae"
@@ -70,9 +71,9 @@ func genEnvCase(t *rapid.T) *EnvCase {
 			hostOK = false
 		}
 	}
-	forms := []string{"raw", "rawshared"}
+	forms := []string{"raw", "raw", "rawshared", "rawshared", "rawlayered"}
 	if hostOK {
-		forms = []string{"raw", "rawshared", "struct", "struct", "map", "dyn", "ptr"}
+		forms = []string{"raw", "rawshared", "rawlayered", "struct", "struct", "map", "dyn", "ptr"}
 	}
 	c.Form0 = forms[rapid.IntRange(0, len(forms)-1).Draw(t, "form0")]
 	// ---- derive E1
@@ -169,8 +170,8 @@ func genEnvCase(t *rapid.T) *EnvCase {
 		}
 	}
 	c.Form1 = forms1[rapid.IntRange(0, len(forms1)-1).Draw(t, "form1")]
-	if c.Form1 == "rawshared" {
-		c.Form1 = "raw" // sharing is a matter of the compile-time types.Env only
+	if c.Form1 == "rawshared" || c.Form1 == "rawlayered" {
+		c.Form1 = "raw" // sharing and layering are matters of the compile-time types.Env only
 	}
 	c.Warm = rapid.Bool().Draw(t, "warm")
 	if _, taken := c.Vals[mixedName]; !taken && hostOK && host1 && rapid.IntRange(0, 7).Draw(t, "mixed") == 0 {
@@ -239,6 +240,9 @@ func envObject(en *run.Engine, form string, vals map[string]*m.Val, types bool) 
 		if form == "rawshared" {
 			return run.TypeEnvShared(env), true
 		}
+		if form == "rawlayered" {
+			return run.TypeEnvLayered(env), true
+		}
 		return run.TypeEnv(env), true
 	}
 	return en.ValEnv(vals), true
@@ -277,6 +281,11 @@ func checkC07(c *EnvCase) *Outcome {
 		var cerr error
 		if p := run.Guard(func() { callable, cerr = en.E.Compile(r.Src, e0) }); p != nil {
 			return bad("%s: Compile panicked: %s\n src: %s", be, p.Text, r.Src)
+		}
+		if cerr != nil && c.Form0 == "rawlayered" && strings.Contains(cerr.Error(), "env.parent != nil") {
+			// a chain of environments is not something Compile takes at the pinned commit: nothing
+			// was compiled, so nothing can run on a mismatching environment
+			return ok(false, "form0:rawlayered", "layered-compile-environment-refused-by-compile")
 		}
 		if cerr != nil {
 			return bad("%s: program over E0 does not compile against E0 in form %s: %v\n src: %s\n env: %s", be, c.Form0, cerr, r.Src, envSummary(pc))
